@@ -178,7 +178,8 @@ def mkpred(name, pid, ctx):
     fn = PRED_FN[name]
 
     def pred(x):
-        ctx.calls.append(pid)
+        if pid >= 0:                 # validators of Check are not part of the call-log law
+            ctx.calls.append(pid)
         return fn(x)
     pred.__name__ = 'pred_%s_%s' % (name, pid)
     return pred
@@ -249,12 +250,12 @@ def mkspec(p, ctx):
         if p['inst']:
             kw['instance_of'] = TYPES[p['inst'][0]] if len(p['inst']) == 1 else tuple(TYPES[t] for t in p['inst'])
         if p['vals']:
-            if p.get('oneof') or len(p['vals']) > 1:
+            if p['oneof']:
                 kw['one_of'] = [tree_py(v) for v in p['vals']]
             else:
                 kw['equal_to'] = tree_py(p['vals'][0])
         if p['validate']:
-            vs = [mkpred(v['name'], v['id'], ctx) for v in p['validate']]
+            vs = [mkpred(v['name'], -1, ctx) for v in p['validate']]
             kw['validate'] = vs[0] if len(vs) == 1 else vs
         kw.update(_default(p))
         return Check(**kw)
@@ -328,4 +329,36 @@ def json_safe(o):
     out = dict(o)
     if 'res' in out:
         out['res'] = py_tree(out['res'])
+    return out
+
+
+# ---- run a function over many inputs in forked processes -------------------------------------
+_PMAP_FN = None
+
+
+def _pmap_one(chunk):
+    try:
+        return [_PMAP_FN(*args) for args in chunk]
+    except Exception:
+        import traceback
+        return {'error': traceback.format_exc()}
+
+
+def pmap(fn, arglists, procs=None, chunk=200):
+    """[fn(*args) for args in arglists], in order, on forked workers (a worker exception is
+    returned, not raised, so the pool cannot hang; it becomes a MachineryError here)."""
+    global _PMAP_FN
+    import multiprocessing as mp
+    chunks = [arglists[i:i + chunk] for i in range(0, len(arglists), chunk)]
+    _PMAP_FN = fn
+    try:
+        with mp.get_context('fork').Pool(procs or vlib.NCPU) as pool:
+            parts = pool.map(_pmap_one, chunks)
+    finally:
+        _PMAP_FN = None
+    out = []
+    for part in parts:
+        if isinstance(part, dict):
+            raise vlib.MachineryError('worker failed:\n' + part['error'])
+        out.extend(part)
     return out
